@@ -11,6 +11,8 @@ import (
 	zz "rare/pkg/zzverif"
 )
 
+var zzHarnesses = map[string]func(){"H04Imm": H04Imm, "H04Buf": H04Buf}
+
 var zzErrX = errors.New("zz read error")
 
 // zzReader is the nondeterministic io.Reader: arbitrary chunking, stalls and
